@@ -16,7 +16,7 @@ import ast
 from sa.cfg import CFG
 from sa.core import AnalysisError, attr_chain, chain_root, enclosing, norm, parents, resolve_callee, src, walk_no_nested
 
-from . import c03, common
+from . import backends, c03, common
 
 ALLOWED_VALUE_CONSUMERS = {"type", "callable", "isinstance", "issubclass", "_is_scalar", "_get_signature", "is_supported_tensor", "get_shape", "len", "id", "repr", "str"}
 
@@ -434,6 +434,29 @@ def r8(p, rep):
     rep.add("C13.R8", f"{f.qualname}:no-positional-kinds", site, not extra, "positional-only parameters are never addressed by keyword" if not extra else f"{sorted(extra)} parameters cannot bind a keyword argument but are treated as if they could")
 
 
+def r9(p, rep):
+    rep.rule("C13.R9", "the tensor-factory stage is the outermost wrapper of the operation table: every other stage (device handling, decomposition) only ever sees real tensors, and sees the tensors a factory produced", "T-DER (order of the wrapper pipeline in each backend)", floor=7)
+    for fw, m in backends.impl_modules(p).items():
+        for f in p.funcs.values():
+            if f.module is not m:
+                continue
+            # the pipeline: <v> = W1(...); <v> = W2(<v>, ...); ...; einx_from_namedtensor.ops(<v>)
+            finals = [c for c in walk_no_nested(f.node) if isinstance(c, ast.Call) and norm(c.func).endswith("einx_from_namedtensor.ops") and c.args and isinstance(c.args[0], ast.Name)]
+            for fin in finals:
+                v = fin.args[0].id
+                steps = [a for a in walk_no_nested(f.node) if isinstance(a, ast.Assign) and any(isinstance(t, ast.Name) and t.id == v for t in a.targets) and isinstance(a.value, ast.Call) and a.lineno < fin.lineno]
+                steps.sort(key=lambda a: a.lineno)
+                names = [norm(a.value.func) for a in steps]
+                fac = [i for i, nme in enumerate(names) if "calltensorfactory" in nme]
+                key = f"{f.qualname}:pipeline"
+                site = f"{m.rel}:{fin.lineno}"
+                if not fac:
+                    rep.violation("C13.R9", key, site, f"the {fw} operation table is not wrapped by the tensor-factory stage at all ({names}): a factory passed as tensor is never called")
+                    continue
+                ok = fac[-1] == len(names) - 1
+                rep.add("C13.R9", key, site, ok, f"pipeline {[x.split('.')[-2] if '.' in x else x for x in names]}: the factory stage is applied last" if ok else f"`{names[fac[-1]]}` is applied before `{names[-1]}`: the later stage wraps the factory stage and runs while factory arguments are still un-called (e.g. the device of a tensor produced by a factory is never seen, `device=None`)")
+
+
 def run(p, rep, tier):
     r1(p, rep)
     rep.rule("C13.R2", "graph=True never runs the compiled function", "T-DOM (guard on the false edge of `if graph`)", floor=2)
@@ -444,6 +467,7 @@ def run(p, rep, tier):
     r6(p, rep)
     r7(p, rep)
     r8(p, rep)
+    r9(p, rep)
     from . import c11 as _c11
 
     _c11.r8(p, rep)  # a backend whose factory module deviates from its siblings behaves differently for this property
